@@ -2706,7 +2706,9 @@ func (p *Posix) UploadPartCopy(ctx context.Context, upi *s3.UploadPartCopyInput)
 	vEnabled := p.isBucketVersioningEnabled(vStatus)
 
 	if srcVersionId != "" {
-		if !p.versioningEnabled() || !vEnabled {
+		// (as for GetObject: versions stay readable by id while versioning
+		// is suspended)
+		if !p.versioningEnabled() {
 			return s3response.CopyPartResult{}, s3err.GetAPIError(s3err.ErrInvalidVersionId)
 		}
 		vId, err := p.meta.RetrieveAttribute(nil, srcBucket, srcObject, versionIdKey)
@@ -4331,7 +4333,9 @@ func (p *Posix) CopyObject(ctx context.Context, input s3response.CopyObjectInput
 	vEnabled := p.isBucketVersioningEnabled(vStatus)
 
 	if srcVersionId != "" {
-		if !p.versioningEnabled() || !vEnabled {
+		// (as for GetObject: versions stay readable by id while versioning
+		// is suspended)
+		if !p.versioningEnabled() {
 			return nil, s3err.GetAPIError(s3err.ErrInvalidVersionId)
 		}
 		vId, err := p.meta.RetrieveAttribute(nil, srcBucket, srcObject, versionIdKey)
